@@ -154,16 +154,24 @@ def opClassify (ws : List String) : String :=
   | [suf, h] =>
     match flavorOf UgridFlavours.importTable suf, flavorOf UgridFlavours.partTable suf, bytesOfHex? h with
     | some fi, some fp, some bs =>
+      -- a second run with a 4 MB allocator: `null` there (or a different outcome) means some `ref_adj_add` asked for
+      -- more than that on the way, whatever the final status is
       let small := decodeUgridWith { ugridCfg with allocCap := 4000400 } fi bs
       let ser := match decodeUgrid fi bs with
         | .error .undefined => "ub"
-        | .error e => if small != .error e then "big" else "clean"
+        | .error e => if small != .error e || small == .error .null then "big" else "clean"
         | .ok m => if small != .ok m then "big" else if indicesInRange m then "clean" else "index"
+      -- ref_grid_inward_boundary_orientation (outside the model) looks at boundary faces that lie in a volume cell
+      let orient := fun (m : UMesh) =>
+        let vols := m.tet ++ m.pyr ++ m.pri ++ m.hex
+        (m.tri.any fun f => vols.any fun c => (f.take 3).all fun x => c.contains x) ||
+        (m.qua.any fun f => vols.any fun c => (f.take 4).all fun x => c.contains x)
       let par := match partRead fp 1 none bs with
         | .error .undefined =>
           match rdHeaderPart fp bs with
           | .ok (hdr, _) => if partCountHazard 1 hdr then "count" else "hazard"
           | .error _ => "hazard"
+        | .ok pm => if orient pm.toMesh then "orient" else "clean"
         | _ => "clean"
       ser ++ " " ++ par
     | _, _, _ => "bad-op"
